@@ -36,7 +36,7 @@ Definition call_ok (c : wcall) : Prop :=
   | NewWriter guid => string_ok guid = true
   | SetCoordinateMetadata v => opt_string_ok v = true
   | RegisterExtension ns url => chars_ok url = true
-  | AddPointcloud guid proto => string_ok guid = true
+  | AddPointcloud guid proto => string_ok guid = true /\ forallb (fun r => float_bits_ok (r_type r)) proto = true
   | PcSet f => pc_field_ok f
   | AddImage guid => string_ok guid = true
   | ImSet f => im_field_ok f
@@ -47,7 +47,8 @@ Definition call_ok (c : wcall) : Prop :=
 Definition desc_good (exts : list extension) (d : pointcloud) : Prop :=
   ext_validate_prototype (pc_prototype d) exts = Ok tt /\
   forallb (fun r => dtype_ok (r_type r)) (pc_prototype d) = true /\
-  pc_strings d = true /\ ofo il_ok (pc_intensity_limits d) = true /\ ofo cl_ok (pc_color_limits d) = true.
+  pc_strings d = true /\ ofo il_ok (pc_intensity_limits d) = true /\ ofo cl_ok (pc_color_limits d) = true /\
+  proto_limits_good (pc_prototype d) = true.
 
 Definition mm_i64 (m : mm Z) : Prop := ofo in_i64 (mm_lo m) = true /\ ofo in_i64 (mm_hi m) = true.
 Definition rb_idx_ok (b : run_bounds) : Prop :=
@@ -95,8 +96,8 @@ Qed.
 
 Lemma desc_taken_good exts d : desc_good exts d -> desc_good exts (desc_taken d).
 Proof.
-  intros (H1 & H2 & H3 & _). destruct d. cbn in *. unfold desc_good. cbn.
-  repeat split; try assumption.
+  intros (H1 & H2 & H3 & _ & _ & H6). destruct d. cbn in *. unfold desc_good. cbn.
+  split; [exact H1|]. split; [exact H2|]. split; [|split; [reflexivity|split; [reflexivity|exact H6]]].
   unfold pc_strings in *. cbn in *. repeat (apply andb_prop in H3 as [H3 ?]). rewrite H3. reflexivity.
 Qed.
 
@@ -114,6 +115,15 @@ Proof.
   rewrite forallb_forall. intros p Hin. specialize (Hr p Hin). specialize (Hw p Hin).
   unfold dtype_ok, range_ok, in_i64 in *. unfold Record.in_i64, Record.I64_MIN, Record.I64_MAX in Hw.
   destruct (r_type p); try reflexivity; destruct Hw as [W1 W2]; lia.
+Qed.
+
+Lemma accepted_limits_good proto : validate_prototype proto = Ok tt ->
+  forallb (fun r => float_bits_ok (r_type r)) proto = true -> proto_limits_good proto = true.
+Proof.
+  intros H Hb. apply validate_prototype_ok in H.
+  destruct H as (_ & _ & _ & _ & _ & _ & _ & _ & _ & _ & _ & _ & _ & _ & _ & _ & _ & _ & _ & Hf).
+  unfold proto_limits_good. rewrite forallb_forall in *. intros r Hr. unfold limits_good.
+  rewrite (Hb r Hr), andb_true_r. apply float_limits_ok_iff. apply Hf. exact Hr.
 Qed.
 
 Lemma limits_of_type_ok t : dtype_ok t = true ->
@@ -266,8 +276,10 @@ Proof.
         pose proof (accepted_dtype_ok (ps_proto ps) Hv Hwf) as Hdt.
         destruct (default_limits_ok (ps_proto ps) cl Hdt Hcl) as [L1 L2].
         rewrite Hd, Hb. split; [|split; [reflexivity|apply bounds_new_idx]].
+        destruct Hok as [Hok Hfb].
         unfold desc_good, desc_new, pc_strings. cbn. rewrite Hok.
-        split; [exact Hev|]. split; [exact Hdt|]. split; [reflexivity|]. split; assumption.
+        split; [exact Hev|]. split; [exact Hdt|]. split; [reflexivity|]. split; [assumption|]. split; [assumption|].
+        apply accepted_limits_good; assumption.
     + (* AddImage *)
       destruct (ws_finalized st); [cbn [wret wrun_spec] in Hrun; inversion Hrun; subst; exact Hm0|].
       cbn [wret wrun_spec] in Hrun. inversion Hrun; subst. unfold meta_inv; cbn [set_sub ws_exts ws_root ws_pcs ws_imgs ws_sub].
